@@ -515,7 +515,7 @@ func TestC12MultiStart(t *testing.T) {
 	}
 	rapid.Check(t, func(rt *rapid.T) {
 		d := msDesc{Nest: rapid.Bool().Draw(rt, "nest"), Perturb: uint64(rapid.IntRange(0, 400).Draw(rt, "perturb"))}
-		n := rapid.SampledFrom([]int{1, 2, 2, 3, 3, 5, 8}).Draw(rt, "starts")
+		n := rapid.SampledFrom([]int{1, 2, 2, 3, 3, 5, 8, 8, 12}).Draw(rt, "starts")
 		for i := 0; i < n; i++ {
 			d.Branches = append(d.Branches, rapid.IntRange(-1, 2).Draw(rt, "len"))
 		}
